@@ -2,6 +2,7 @@ package sim
 
 import (
 	"context"
+	"sync"
 	"fmt"
 	"net"
 	"net/http"
@@ -16,6 +17,7 @@ import (
 
 	"github.com/DataDog/datadog-traceroute/common"
 	"github.com/DataDog/datadog-traceroute/icmp"
+	"github.com/DataDog/datadog-traceroute/packets"
 	"github.com/DataDog/datadog-traceroute/publicip"
 	"github.com/DataDog/datadog-traceroute/result"
 	"github.com/DataDog/datadog-traceroute/reversedns"
@@ -65,6 +67,7 @@ type CallState struct {
 	Iters      []Iter
 	Enriched   *result.Results
 	Driver     *scriptDriver
+	Alloc      [][]uint16
 	Params     *traceroute.TracerouteParams
 	ResolvedPort int
 }
@@ -250,6 +253,22 @@ func (w *World) runCall(ctx context.Context, cs *CallState) {
 		r.Traceroute.Runs = append(r.Traceroute.Runs, run)
 		r.EnrichWithReverseDns()
 		cs.Enriched = r
+	case "alloc_stress":
+		// Queries goroutines each allocate E2E identifier ranges of MaxTTL identifiers, freely
+		// interleaved by the Go scheduler (no seam inside the allocator)
+		res := make([][]uint16, c.Queries)
+		var wg sync.WaitGroup
+		for g := 0; g < c.Queries; g++ {
+			wg.Add(1)
+			go func(g int) {
+				defer wg.Done()
+				for k := 0; k < c.E2E; k++ {
+					res[g] = append(res[g], packets.AllocPacketID(uint8(c.MaxTTL)))
+				}
+			}(g)
+		}
+		wg.Wait()
+		cs.Alloc = res
 	case "sleep":
 		time.Sleep(time.Duration(c.GapUs) * time.Microsecond)
 	default:
